@@ -54,3 +54,46 @@ Definition region_of (acc : list record) : bytes :=
   | [] => []
   | r0 :: _ => concat (map (frame (r_ts r0)) acc)
   end.
+
+(* ---- the specification of a sequence of append() calls, in terms of produced bytes ------------- *)
+Definition first_of (acc : list record) (r : record) : Z :=
+  match acc with [] => r_ts r | r0 :: _ => r_ts r0 end.
+Definition nonempty {A} (l : list A) : bool := match l with [] => false | _ => true end.
+
+(* the limit predicate of each implementation: [acc] are the records accepted so far,
+   [after] the size the uncompressed batch would have with r added *)
+Definition refuses (i : impl) (c : cfg) (acc : list record) (r : record) : bool :=
+  let after := HEADER_SIZE + blen (region_of acc) + blen (frame (first_of acc r) r) in
+  match i with
+  | Py => nonempty acc && (c_batch_size c <? after)
+  | Cy => negb (r_offset r =? 0) && (c_batch_size c <=? after)
+  end.
+
+(* results of the append() calls (None = refused; metadata size = bytes the record occupies)
+   and the records accepted in the end *)
+Fixpoint run_spec (i : impl) (c : cfg) (acc : list record) (rs : list record)
+  : list (option meta) * list record :=
+  match rs with
+  | [] => ([], acc)
+  | r :: rs' =>
+      if refuses i c acc r then
+        let (ms, a) := run_spec i c acc rs' in (None :: ms, a)
+      else
+        let (ms, a) := run_spec i c (acc ++ [r]) rs' in
+        (Some (mkMeta (r_offset r) (blen (frame (first_of acc r) r)) (r_ts r)) :: ms, a)
+  end.
+
+(* first / max timestamp fields of the header: of the records, or the implementation's
+   "unset" value for a batch without records *)
+Definition hdr_first (i : impl) (acc : list record) : Z :=
+  match first_ts acc with Some t => t | None => unset_ts i end.
+Definition hdr_max (i : impl) (acc : list record) : Z :=
+  match max_ts acc with Some t => t | None => unset_ts i end.
+
+(* whether build() ends up sending the compressed payload *)
+Definition uses_codec (compress : Z -> bytes -> bytes) (i : impl) (c : cfg) (data : bytes) : bool :=
+  if c_codec c =? 0 then false
+  else match i with
+       | Py => negb (blen data <=? blen (compress (c_codec c) data))
+       | Cy => true
+       end.
